@@ -94,7 +94,7 @@ func judgeLegacyApply(c *core.Ctx, sc *SeqCase, neg bool) {
 	c.Nontrivial("legacy", sc.Canon(), fmt.Sprint(neg))
 }
 
-var legacyKeys = []string{"a", "b", "c", "d", "e", "k", "0", "1", "zz", "a/b", "m~n", "~1", "/", "-1", "01", " ", "é"}
+var legacyKeys = []string{"a", "b", "c", "d", "e", "k", "0", "1", "zz", "a/b", "m~n", "~1", "/", "sensor_reading_01_celsius", "sensor_reading_02_celsius", "-1", "01", " ", "é"}
 
 func init() {
 	n := func(q, t int) func(core.Tier) int {
@@ -260,6 +260,10 @@ func init() {
 				if b := mustParse(bT); b.K != jr.Obj && b.K != jr.Arr {
 					return
 				}
+				// the caller's texts may carry whitespace around the value
+				ws := []string{"", "", " ", "\n  ", "\t", "\r\n"}
+				aT = ws[c.R.Intn(len(ws))] + aT + ws[c.R.Intn(len(ws))]
+				bT = ws[c.R.Intn(len(ws))] + bT + ws[c.R.Intn(len(ws))]
 				judgeEqual(c, jpl.Equal, "legacy:", aT, bT, kind)
 			}},
 		},
